@@ -32,7 +32,7 @@ SLICES_QUICK = [
                      "Viols": '{"msg-over-max", "frame-over-max"}', "MaxMsgs": 1, "MaxFrags": 3, "MaxCtl": 1, "MaxFrames": 4}, 2, 2),
 ]
 SLICES_THOROUGH = [
-    ("all classes, text/ping, <= 4 frames", dict(SLICES_QUICK[0][1], MaxFrags=3), 1, 4),
+    ("all classes, text/ping, <= 4 frames", dict(SLICES_QUICK[0][1], MaxFrags=3), 2, 4),
     ("binary/pong, 16/64-bit lengths, <= 4 frames", dict(SLICES_QUICK[1][1], MaxFrames=4), 2, 4),
     ("size limits", SLICES_QUICK[2][1], 1, 2),
     ("both types, both controls, framing classes", {"Ops": '{"text", "binary"}', "CtlOps": '{"ping", "pong"}', "CtlLens": "{0, 125}", "Lens": "{0, 126}", "VLens": "{0, 125}",
@@ -76,9 +76,9 @@ def run(ck):
     huge_scenarios(hb)
     c06.validate(ck, sw, "huge", hb, "64-bit length with the top bit set")
     if ck.tier == "quick":
-        c06.run_slices(ck, sw, SLICES_QUICK, BASE, SIM, 400, pool=4)
+        c06.run_slices(ck, sw, SLICES_QUICK, BASE, SIM, 400, offsets=(20, 0, 4000), pool=4)
     else:
-        c06.run_slices(ck, sw, SLICES_THOROUGH, BASE, SIM, 30000, offsets=(40, 12, 400000), pool=4)
+        c06.run_slices(ck, sw, SLICES_THOROUGH, BASE, SIM, 4000, offsets=(40, 12, 40000), pool=3)
     ck.cov["exhaustive"] = True
     ck.assumptions += [
         "one violation per history; frames after the violating one are not judged",
